@@ -949,6 +949,509 @@ fn blobs_parse<T>(s: &str, f: impl Fn(&str) -> T) -> Vec<(bool, Option<Vec<T>>)>
         .collect()
 }
 
+
+// ------------------------------------------------------------------------------------------
+// C17: bytes -> prost -> try_from_raw for every public decode entry point
+// ------------------------------------------------------------------------------------------
+
+fn tx_signing_key() -> astria_core::crypto::SigningKey {
+    astria_core::crypto::SigningKey::from([0x55u8; 32])
+}
+
+fn tx_raw_s(r: &astria_core::generated::astria::protocol::transaction::v1::Transaction) -> String {
+    // the three oracles, computed independently of `Transaction::try_from_raw`
+    use astria_core::{
+        crypto::{
+            Signature,
+            VerificationKey,
+        },
+        protocol::transaction::v1::TransactionBody,
+    };
+    let key = VerificationKey::try_from(&*r.public_key).ok();
+    let sig = Signature::try_from(&*r.signature).ok();
+    let sig_ok = match (&key, &sig, &r.body) {
+        (Some(k), Some(s), Some(b)) => k.verify(s, &b.value).is_ok(),
+        _ => false,
+    };
+    let body_ok = match &r.body {
+        Some(b) => {
+            let any = b.clone();
+            matches!(no_panic(move || TransactionBody::try_from_any(any).is_ok()), Some(true))
+        }
+        None => false,
+    };
+    format!(
+        "sig={}&pk={}&body={}&key={}&sigok={}&bodyok={}",
+        hex(&r.signature),
+        hex(&r.public_key),
+        match &r.body {
+            None => "~".to_string(),
+            Some(b) => format!("{};{}", hex(b.type_url.as_bytes()), hex(&b.value)),
+        },
+        u8::from(key.is_some()),
+        u8::from(sig_ok),
+        u8::from(body_ok),
+    )
+}
+
+fn simple_kind(dbg: &str, kinds: &[&str]) -> String {
+    // first identifier of the Debug rendering that is one of `kinds`
+    let mut best: Option<(usize, &str)> = None;
+    for k in kinds {
+        if let Some(p) = dbg.find(k) {
+            if best.map_or(true, |(bp, _)| p < bp) {
+                best = Some((p, k));
+            }
+        }
+    }
+    best.map_or("other".to_string(), |(_, k)| k.to_string())
+}
+
+fn rollup_data_s(r: &raw::RollupData) -> String {
+    match &r.value {
+        None => "v=~".to_string(),
+        Some(raw::rollup_data::Value::SequencedData(d)) => format!("v=seq;{}", hex(d)),
+        Some(raw::rollup_data::Value::Deposit(d)) => {
+            format!("v=dep;{}", u8::from(Deposit::try_from_raw(d.clone()).is_ok()))
+        }
+        Some(raw::rollup_data::Value::PriceFeedData(d)) => format!(
+            "v=pf;{}",
+            u8::from(astria_core::sequencerblock::v1::block::PriceFeedData::try_from_raw(d.clone()).is_ok())
+        ),
+    }
+}
+
+/// `block wire <kind> <label> <hex>`: result `prost-err` | `panic` | `raw=<dump> res=<verdict> re=<0|1>`
+fn wire_exec(kind: &str, bytes: Vec<u8>) -> String {
+    use astria_core::{
+        generated::astria::protocol::transaction::v1 as rawtx,
+        protocol::transaction::v1::Transaction,
+    };
+    macro_rules! decode {
+        ($ty:ty) => {{
+            let b = bytes.clone();
+            match no_panic(move || <$ty>::decode(&*b)) {
+                None => return "panic".to_string(),
+                Some(Err(_)) => return "prost-err".to_string(),
+                Some(Ok(r)) => r,
+            }
+        }};
+    }
+    match kind {
+        "block" => {
+            let r = decode!(raw::SequencerBlock);
+            let res = res_full(&r);
+            let re = match no_panic({
+                let r = r.clone();
+                move || match SequencerBlock::try_from_raw(r) {
+                    Ok(v) => {
+                        let raw2 = v.into_raw();
+                        let again = raw::SequencerBlock::decode(&*raw2.encode_to_vec()).ok() == Some(raw2.clone());
+                        let idem = SequencerBlock::try_from_raw(raw2.clone()).map(|x| x.into_raw() == raw2).unwrap_or(false);
+                        again && idem
+                    }
+                    Err(_) => true,
+                }
+            }) {
+                Some(b) => u8::from(b),
+                None => 2,
+            };
+            format!("raw={} res={} re={re}", block_s(&r), res.replace(' ', "_"))
+        }
+        "filtered" => {
+            let r = decode!(raw::FilteredSequencerBlock);
+            let res = res_filtered(&r);
+            let re = match no_panic({
+                let r = r.clone();
+                move || match FilteredSequencerBlock::try_from_raw(r) {
+                    Ok(v) => {
+                        let raw2 = v.into_raw();
+                        let again = raw::FilteredSequencerBlock::decode(&*raw2.encode_to_vec()).ok() == Some(raw2.clone());
+                        let idem = FilteredSequencerBlock::try_from_raw(raw2.clone()).map(|x| x.into_raw() == raw2).unwrap_or(false);
+                        again && idem
+                    }
+                    Err(_) => true,
+                }
+            }) {
+                Some(b) => u8::from(b),
+                None => 2,
+            };
+            format!("raw={} res={} re={re}", filtered_s(&r), res.replace(' ', "_"))
+        }
+        "meta" => {
+            let r = decode!(raw::SubmittedMetadata);
+            let res = res_meta(&r);
+            let re = match no_panic({
+                let r = r.clone();
+                move || match SubmittedMetadata::try_from_raw(r) {
+                    Ok(v) => {
+                        let raw2 = v.into_raw();
+                        let again = raw::SubmittedMetadata::decode(&*raw2.encode_to_vec()).ok() == Some(raw2.clone());
+                        let idem = SubmittedMetadata::try_from_raw(raw2.clone()).map(|x| x.into_raw() == raw2).unwrap_or(false);
+                        again && idem
+                    }
+                    Err(_) => true,
+                }
+            }) {
+                Some(b) => u8::from(b),
+                None => 2,
+            };
+            format!("raw={} res={} re={re}", meta_s(&r), res.replace(' ', "_"))
+        }
+        "blob" => {
+            let r = decode!(raw::SubmittedRollupData);
+            let res = res_blob(&r);
+            let re = match no_panic({
+                let r = r.clone();
+                move || match SubmittedRollupData::try_from_raw(r) {
+                    Ok(v) => {
+                        let raw2 = v.into_raw();
+                        let again = raw::SubmittedRollupData::decode(&*raw2.encode_to_vec()).ok() == Some(raw2.clone());
+                        let idem = SubmittedRollupData::try_from_raw(raw2.clone()).map(|x| x.into_raw() == raw2).unwrap_or(false);
+                        again && idem
+                    }
+                    Err(_) => true,
+                }
+            }) {
+                Some(b) => u8::from(b),
+                None => 2,
+            };
+            format!("raw={} res={} re={re}", blob_s(&r), res.replace(' ', "_"))
+        }
+        "tx" => {
+            let r = decode!(rawtx::Transaction);
+            let dump = tx_raw_s(&r);
+            let input = r.clone();
+            let (res, re) = match no_panic(move || Transaction::try_from_raw(input)) {
+                None => ("panic".to_string(), 2),
+                Some(Err(e)) => (
+                    format!(
+                        "err:{}",
+                        simple_kind(&format!("{e:?}"), &["UnsetBody", "Signature", "TransactionBody", "VerificationKey", "Verification("])
+                            .trim_end_matches('(')
+                    ),
+                    1,
+                ),
+                Some(Ok(t)) => {
+                    let raw2 = t.to_raw();
+                    let same = raw2 == r;
+                    let again = rawtx::Transaction::decode(&*raw2.encode_to_vec()).ok() == Some(raw2.clone());
+                    let idem = Transaction::try_from_raw(raw2.clone()).map(|x| x.to_raw() == raw2).unwrap_or(false);
+                    ((if same { "ok_same" } else { "ok_differs" }).to_string(), u8::from(again && idem))
+                }
+            };
+            format!("raw={dump} res={res} re={re}")
+        }
+        "rollupdata" => {
+            let r = decode!(raw::RollupData);
+            let dump = rollup_data_s(&r);
+            let input = r.clone();
+            let (res, re) = match no_panic(move || RollupData::try_from_raw(input)) {
+                None => ("panic".to_string(), 2),
+                Some(Err(e)) => (format!("err:{}", simple_kind(&format!("{e:?}"), &["FieldNotSet", "Deposit", "PriceFeedData"])), 1),
+                Some(Ok(v)) => {
+                    let raw2 = v.into_raw();
+                    let again = raw::RollupData::decode(&*raw2.encode_to_vec()).ok() == Some(raw2.clone());
+                    let idem = RollupData::try_from_raw(raw2.clone()).map(|x| x.into_raw() == raw2).unwrap_or(false);
+                    ((if raw2 == r { "ok_same" } else { "ok_differs" }).to_string(), u8::from(again && idem))
+                }
+            };
+            format!("raw={dump} res={res} re={re}")
+        }
+        "hblob" | "rblob" => {
+            // the conductor's own decoding of one Celestia blob (brotli + prost + list conversion)
+            use astria_core::brotli::decompress_bytes;
+            use celestia_types::{
+                AppVersion,
+                Blob,
+            };
+            use crate::celestia::{
+                convert::decode_raw_blobs,
+                fetch::RawBlobs,
+            };
+            let seq_ns = astria_core::celestia::namespace_v0_from_sha256_of_bytes(b"verif-sequencer");
+            let rollup_ns = astria_core::celestia::namespace_v0_from_sha256_of_bytes(b"verif-rollup");
+            let is_h = kind == "hblob";
+            let b2 = bytes.clone();
+            let Some(blob) = no_panic(move || Blob::new(if is_h { seq_ns } else { rollup_ns }, b2, AppVersion::V3).ok()).flatten() else {
+                return "not-a-blob".to_string();
+            };
+            // what the list looks like after decompression and prost (input of the model)
+            let b3 = bytes.clone();
+            let listed: Option<String> = match no_panic(move || decompress_bytes(&b3).ok()) {
+                None => return "panic".to_string(),
+                Some(None) => None,
+                Some(Some(data)) => {
+                    if is_h {
+                        match no_panic(move || raw::SubmittedMetadataList::decode(&*data).ok()) {
+                            None => return "panic".to_string(),
+                            Some(l) => l.map(|l| if l.entries.is_empty() { "0".to_string() } else { l.entries.iter().map(meta_s).collect::<Vec<_>>().join("+") }),
+                        }
+                    } else {
+                        match no_panic(move || raw::SubmittedRollupDataList::decode(&*data).ok()) {
+                            None => return "panic".to_string(),
+                            Some(l) => l.map(|l| if l.entries.is_empty() { "0".to_string() } else { l.entries.iter().map(blob_s).collect::<Vec<_>>().join("+") }),
+                        }
+                    }
+                }
+            };
+            let raw_blobs = RawBlobs {
+                celestia_height: 1,
+                header_blobs: if is_h { vec![blob.clone()] } else { vec![] },
+                rollup_blobs: if is_h { vec![] } else { vec![blob] },
+            };
+            let res = match no_panic(std::panic::AssertUnwindSafe(move || decode_raw_blobs(raw_blobs, rollup_ns, seq_ns))) {
+                None => "panic".to_string(),
+                Some(conv) => {
+                    let (_, metas, blobs) = conv.into_parts();
+                    let items: Vec<String> = if is_h {
+                        metas.into_iter().map(|m| meta_s(&m.into_raw())).collect()
+                    } else {
+                        blobs.into_iter().map(|b| blob_s(&b.into_raw())).collect()
+                    };
+                    if items.is_empty() { "0".to_string() } else { format!("{}:{}", items.len(), items.join("+")) }
+                }
+            };
+            format!("raw={} res={res} re=1", listed.unwrap_or_else(|| "!".to_string()))
+        }
+        other => format!("bad-kind:{other}"),
+    }
+}
+
+fn byte_mutations(rng: &mut Rng, b: &[u8], budget: usize) -> Vec<(String, Vec<u8>)> {
+    let mut out: Vec<(String, Vec<u8>)> = vec![];
+    let n = b.len();
+    if n == 0 {
+        return out;
+    }
+    let mut cuts: Vec<usize> = vec![0, 1, 2, n - 1, n.saturating_sub(2)];
+    for k in 1..budget {
+        cuts.push(k * n / budget);
+    }
+    cuts.sort_unstable();
+    cuts.dedup();
+    for c in cuts {
+        if c < n {
+            out.push((format!("trunc:{c}"), b[..c].to_vec()));
+        }
+    }
+    for _ in 0..budget {
+        let i = rng.below(n as u64) as usize;
+        let mut v = b.to_vec();
+        v[i] ^= 1 << rng.below(8);
+        out.push((format!("bitflip:{i}"), v));
+    }
+    for _ in 0..budget / 2 {
+        let i = rng.below(n as u64) as usize;
+        let mut v = b.to_vec();
+        v.remove(i);
+        out.push((format!("del:{i}"), v));
+        let mut v = b.to_vec();
+        v.insert(i, rng.next() as u8);
+        out.push((format!("ins:{i}"), v));
+        let mut v = b.to_vec();
+        v[i] = *rng.pick(&[0x00u8, 0x7f, 0x80, 0xff]);
+        out.push((format!("set:{i}"), v));
+    }
+    let mut v = b.to_vec();
+    v.extend_from_slice(b);
+    out.push(("twice".to_string(), v));
+    let mut v = b.to_vec();
+    v.extend_from_slice(&[0xc0, 0x3e, 0x01]); // unknown field 1000, varint 1
+    out.push(("unknown-field".to_string(), v));
+    let mut v = b.to_vec();
+    v.extend_from_slice(&[0x0a, 0xff, 0xff, 0xff, 0xff, 0xff, 0xff, 0xff, 0xff, 0xff, 0x01]); // field 1, length 2^64-1
+    out.push(("huge-length".to_string(), v));
+    let mut v = b.to_vec();
+    v.extend_from_slice(&[0x0a, 0xff, 0xff, 0xff, 0xff, 0xff, 0xff, 0xff, 0xff, 0xff, 0xff, 0x01]); // 11-byte varint
+    out.push(("varint-overflow".to_string(), v));
+    out
+}
+
+fn gen_wire(rng: &mut Rng, ex: &mut Exec, trace: &mut Trace, honest: &raw::SequencerBlock, filtered: &raw::FilteredSequencerBlock, meta: &raw::SubmittedMetadata, blobs: &[raw::SubmittedRollupData], n: u64) {
+    use astria_core::{
+        brotli::compress_bytes,
+        protocol::transaction::v1::{
+            action::RollupDataSubmission,
+            TransactionBody,
+        },
+    };
+    let budget = if common::is_thorough() { 24 } else { 8 };
+    let mut emit = |kind: &str, label: &str, bytes: &[u8]| {
+        trace.line(&ex.exec(&format!("block wire {kind} {label} {}", hex(bytes))));
+    };
+    // ---- structure-aware mutations at the raw level, then through the wire ----
+    let mut cases: Vec<(String, raw::SequencerBlock)> = vec![("honest".to_string(), honest.clone())];
+    for (i, (name, rts)) in mut_rts(&honest.rollup_transactions, rng).into_iter().enumerate() {
+        if i % 5 == (n as usize) % 5 {
+            let mut x = honest.clone();
+            x.rollup_transactions = rts;
+            cases.push((name, x));
+        }
+    }
+    for (i, (name, tp, ip)) in mut_common_proofs(&honest.rollup_transactions_proof, &honest.rollup_ids_proof).into_iter().enumerate() {
+        if i % 4 == (n as usize) % 4 {
+            let mut x = honest.clone();
+            x.rollup_transactions_proof = tp;
+            x.rollup_ids_proof = ip;
+            cases.push((name, x));
+        }
+    }
+    for (i, (name, h)) in mut_header(&honest.header).into_iter().enumerate() {
+        if i % 4 == (n as usize) % 4 {
+            let mut x = honest.clone();
+            x.header = h;
+            cases.push((name, x));
+        }
+    }
+    for (name, x) in &cases {
+        emit("block", name, &x.encode_to_vec());
+    }
+    for (name, m) in byte_mutations(rng, &honest.encode_to_vec(), budget) {
+        emit("block", &name, &m);
+    }
+    emit("filtered", "honest", &filtered.encode_to_vec());
+    for (i, (name, ids)) in mut_ids(&filtered.all_rollup_ids).into_iter().enumerate() {
+        if i % 3 == (n as usize) % 3 {
+            let mut x = filtered.clone();
+            x.all_rollup_ids = ids;
+            emit("filtered", &name, &x.encode_to_vec());
+        }
+    }
+    for (i, (name, rts)) in mut_rts(&filtered.rollup_transactions, rng).into_iter().enumerate() {
+        if i % 6 == (n as usize) % 6 {
+            let mut x = filtered.clone();
+            x.rollup_transactions = rts;
+            emit("filtered", &name, &x.encode_to_vec());
+        }
+    }
+    for (name, m) in byte_mutations(rng, &filtered.encode_to_vec(), budget) {
+        emit("filtered", &name, &m);
+    }
+    emit("meta", "honest", &meta.encode_to_vec());
+    for (i, (name, tp, ip)) in mut_common_proofs(&meta.rollup_transactions_proof, &meta.rollup_ids_proof).into_iter().enumerate() {
+        if i % 3 == (n as usize) % 3 {
+            let mut x = meta.clone();
+            x.rollup_transactions_proof = tp;
+            x.rollup_ids_proof = ip;
+            emit("meta", &name, &x.encode_to_vec());
+        }
+    }
+    for (name, m) in byte_mutations(rng, &meta.encode_to_vec(), budget) {
+        emit("meta", &name, &m);
+    }
+    if let Some(b) = blobs.first() {
+        emit("blob", "honest", &b.encode_to_vec());
+        for (how, name) in PROOF_MUTS {
+            let mut x = b.clone();
+            x.proof = mut_proof(&b.proof, *how);
+            emit("blob", &format!("proof-{name}"), &x.encode_to_vec());
+        }
+        for (name, m) in byte_mutations(rng, &b.encode_to_vec(), budget) {
+            emit("blob", &name, &m);
+        }
+        // rollup data entries (what the rollup node decodes)
+        for (k, tx) in b.transactions.iter().take(3).enumerate() {
+            emit("rollupdata", &format!("honest:{k}"), tx);
+            for (name, m) in byte_mutations(rng, tx, budget / 2) {
+                emit("rollupdata", &name, &m);
+            }
+        }
+    }
+    emit("rollupdata", "empty", &[]);
+    // ---- Celestia blobs as the conductor decodes them ----
+    let hlist = raw::SubmittedMetadataList {
+        entries: vec![meta.clone()],
+    }
+    .encode_to_vec();
+    let hcomp = compress_bytes(&hlist).unwrap();
+    emit("hblob", "honest", &hcomp);
+    emit("hblob", "uncompressed", &hlist);
+    let mut bad = meta.clone();
+    bad.rollup_ids_proof = None;
+    emit("hblob", "one-bad-entry", &compress_bytes(&raw::SubmittedMetadataList { entries: vec![meta.clone(), bad] }.encode_to_vec()).unwrap());
+    emit("hblob", "empty-list", &compress_bytes(&[]).unwrap());
+    for (name, m) in byte_mutations(rng, &hcomp, budget) {
+        emit("hblob", &name, &m);
+    }
+    for (name, m) in byte_mutations(rng, &hlist, budget / 2) {
+        emit("hblob", &format!("inner-{name}"), &compress_bytes(&m).unwrap());
+    }
+    let rlist = raw::SubmittedRollupDataList {
+        entries: blobs.to_vec(),
+    }
+    .encode_to_vec();
+    let rcomp = compress_bytes(&rlist).unwrap();
+    emit("rblob", "honest", &rcomp);
+    for (name, m) in byte_mutations(rng, &rcomp, budget) {
+        emit("rblob", &name, &m);
+    }
+    for (name, m) in byte_mutations(rng, &rlist, budget / 2) {
+        emit("rblob", &format!("inner-{name}"), &compress_bytes(&m).unwrap());
+    }
+    // ---- transactions ----
+    let key = tx_signing_key();
+    let data_len = rng.below(40) as usize + 1;
+    let body = TransactionBody::builder()
+        .actions(vec![RollupDataSubmission {
+            rollup_id: RollupId::new([n as u8; 32]),
+            data: Bytes::from(rng.bytes(data_len)),
+            fee_asset: "nria".parse().unwrap(),
+        }
+        .into()])
+        .chain_id("verif-chain".to_string())
+        .nonce(n as u32)
+        .try_build()
+        .unwrap();
+    let tx = body.sign(&key);
+    let rawtx = tx.to_raw();
+    let txb = rawtx.encode_to_vec();
+    emit("tx", "honest", &txb);
+    // structure-aware
+    let mut x = rawtx.clone();
+    x.body = None;
+    emit("tx", "body-unset", &x.encode_to_vec());
+    let mut x = rawtx.clone();
+    x.signature = flip(&x.signature, 3);
+    emit("tx", "sig-flip", &x.encode_to_vec());
+    let mut x = rawtx.clone();
+    x.signature = x.signature.slice(..63);
+    emit("tx", "sig-63", &x.encode_to_vec());
+    let mut x = rawtx.clone();
+    x.public_key = flip(&x.public_key, 3);
+    emit("tx", "key-flip", &x.encode_to_vec());
+    let mut x = rawtx.clone();
+    x.public_key = x.public_key.slice(..31);
+    emit("tx", "key-31", &x.encode_to_vec());
+    let mut x = rawtx.clone();
+    x.public_key = Bytes::from(tx_signing_key_other().verification_key().to_bytes().to_vec());
+    emit("tx", "key-other", &x.encode_to_vec());
+    let mut x = rawtx.clone();
+    x.body.as_mut().unwrap().value = flip(&x.body.as_ref().unwrap().value, 5);
+    emit("tx", "body-flip", &x.encode_to_vec());
+    let mut x = rawtx.clone();
+    x.body.as_mut().unwrap().type_url = "/astria.protocol.transaction.v1.Other".to_string();
+    emit("tx", "type-url-other", &x.encode_to_vec());
+    // validly signed garbage / bodies that violate the body's own rules
+    for (name, value) in [
+        ("signed-garbage", rng.bytes(20)),
+        ("signed-empty", vec![]),
+        ("signed-truncated-body", rawtx.body.as_ref().unwrap().value[..rawtx.body.as_ref().unwrap().value.len() / 2].to_vec()),
+    ] {
+        let mut x = rawtx.clone();
+        x.signature = Bytes::from(key.sign(&value).to_bytes().to_vec());
+        x.body.as_mut().unwrap().value = value.into();
+        emit("tx", name, &x.encode_to_vec());
+    }
+    for (name, m) in byte_mutations(rng, &txb, budget) {
+        emit("tx", &name, &m);
+    }
+}
+
+fn tx_signing_key_other() -> astria_core::crypto::SigningKey {
+    astria_core::crypto::SigningKey::from([0x56u8; 32])
+}
+
 struct Session {
     block: Option<SequencerBlock>,
 }
@@ -1054,6 +1557,7 @@ impl Exec {
                     Some(blocks) => rec_s(blocks),
                 }
             }
+            "wire" => wire_exec(t[2], unhex(t[4])),
             other => format!("bad-op:{other}"),
         };
         format!("{op} => {res}")
@@ -1696,6 +2200,11 @@ fn generate(rng: &mut Rng, ex: &mut Exec, trace: &mut Trace) {
 
         // ---- the conductor ----
         gen_celestia(rng, ex, trace, &spec, &meta, &blobs, n);
+
+        // ---- C17: the same values through the wire, with byte-level mutations ----
+        let req: Vec<RollupId> = honest.rollup_transactions.iter().take(2).map(|r| RollupId::new(arr32(&r.rollup_id.as_ref().unwrap().inner))).collect();
+        let filtered = block.to_filtered_block(req).into_raw();
+        gen_wire(rng, ex, trace, &honest, &filtered, &meta, &blobs, n);
     }
 }
 
